@@ -18,7 +18,8 @@ RULE = ('cases = (class, real/complex, N even/odd in 16..64, NFFT kind in {None,
         'prime}, sampling in {1, 2, 1e3, 0.05}, tone bin k (all bins for small NFFT, incl. DC+-1 and Nyquist-1, '
         'negative frequencies), model orders drawn in the documented domain); every case is non-trivial '
         '(a tone is always present); distinct = distinct descriptor')
-ASSUMPTIONS = ['tones at 60 dB SNR so that the maximum is unique',
+ASSUMPTIONS = ['tones at 60 dB SNR so that the maximum is unique (180 dB for half of the covariance / modified-covariance '
+               'cases); exactly noiseless records (a pole on the grid, infinite model spectrum) are not driven',
                'peak tolerances per estimator exactly as stated in the property (0 / 1 bin / taper bandwidth); '
                'real-sinusoid half-widths as calibrated in DESIGN section 6 C02',
                'NFFT is the requested value (an object that silently changes it has moved the grid)',
@@ -93,6 +94,10 @@ def cases(c):
             out.append({'cls': cls, 'cplx': cplx, 'N': N, 'NFFT': kind, 'fs': gen.pick(rng, [1.0, 2.0, 1000.0, 0.05]),
                         'k': k, 'params': params, 'amp10': int(gen.pick(rng, [0, 0, 0, -3, -7, 4])), 'i': i, 'directed': i < 4,
                         'reuse': ((i // 3) % 4) if i % 3 == 1 else None})
+            if cls in ('pcovar', 'pmodcovar') and (i // 2) % 2 == 0:
+                # the least-squares estimators are exact on a noiseless tone: nearly noiseless records (noise 1e-9)
+                # separate them from a recursion that breaks down when the prediction error vanishes
+                out[-1]['noise10'] = -9
     return out
 
 
@@ -102,10 +107,11 @@ def run_case(c, d):
     rng = c.rng(d, 'x')
     n = np.arange(N)
     ph = rng.uniform(0, 2 * np.pi)
+    sigma = 10.0 ** d.get('noise10', -3)
     if cplx:
-        x = np.exp(1j * (2 * np.pi * k * n / NFFT + ph)) + 1e-3 * gen.noise(rng, N, True)
+        x = np.exp(1j * (2 * np.pi * k * n / NFFT + ph)) + sigma * gen.noise(rng, N, True)
     else:
-        x = np.cos(2 * np.pi * k * n / NFFT + ph) + 1e-3 * gen.noise(rng, N, False)
+        x = np.cos(2 * np.pi * k * n / NFFT + ph) + sigma * gen.noise(rng, N, False)
     x = x * 10.0 ** d.get('amp10', 0)             # the axis clauses do not depend on the amplitude of the record
     feats = {'cls': cls, 'cplx': cplx, 'nfft_odd': bool(NFFT % 2), 'nfft_kind': 'None' if kind is None else
              ('nextpow2' if kind == 'nextpow2' else 'int')}
@@ -149,6 +155,20 @@ def run_case(c, d):
     else:
         hw = E.halfwidth_real(cls, params, N, NFFT)
         dist = abs(bin_at - abs(k))
+        if cls == 'parma' and dist > hw and params['P'] > 2:
+            # an ARMA model with more poles than the sinusoid needs has free poles; on a 60 dB tone one of them may
+            # (rarely: 1 in ~300 fits at P = 4) dominate.  That is a matter of the fit, not of the axis, exactly when
+            # the model the object itself reports (its ar / ma), evaluated by the monitor's own explicit sums on
+            # k/NFFT, has its maximum at the very frequency the object reports for its maximum.
+            try:
+                A = refs.poly_on_grid(np.concatenate([[1.0], np.asarray(p.ar)]), NFFT)
+                B = refs.poly_on_grid(np.concatenate([[1.0], np.asarray(p.ma)]), NFFT)
+                model = (np.abs(B) ** 2 / np.abs(A) ** 2)[:len(psd)]
+                if int(np.argmax(model)) == bin_at:
+                    c.discard('tone-clause:over-parameterised-arma-fit-peaks-at-a-spurious-pole(axis-consistent)')
+                    return
+            except Exception:
+                pass
         c.err('peak-distance-real:%s' % cls, dist)
         c.require('real-sinusoid:maximum-within-main-lobe-half-width', dist <= hw,
                   dict(det, peak_bin=bin_at, distance=dist, allowed=hw), feats)
